@@ -21,6 +21,7 @@ import numpy as np
 import laws
 import tlc
 from tlaval import parse_state
+import conf_student
 from conf_student import (JVM_ENV, MVS, NPROC, TLA_OF, _plain, _tick, array_of, chunked, done_blocks, mc_module, normalise,
                           num, rational_of, run_parallel, shapes_for, tagged, tla_set, wrong, MAX_DEN)
 
@@ -175,9 +176,21 @@ def _replay_blocks(blocks):
         variants = [(s, 'float') for s in shapes_for(nb)]
         if all(isinstance(c[0], int) and isinstance(c[1], int) for cells in (st['ref'],) + tuple(st['oth']) for c in cells):
             variants.append((shapes_for(nb)[0], 'int'))
+        multi = [sh for sh in shapes_for(nb) if len(sh) >= 2 and int(np.prod(sh)) > 1]
+        if multi:
+            variants.append((multi[-1], 'float-T'))            # the same arrays as transposed (non-contiguous) views
         for k, (shape, dtype) in enumerate(variants):
+            layout = 'C'
+            if dtype == 'float-T':
+                dtype, layout = 'float', 'T'
             case = case_of_state(st, shape, dtype)
-            obs, problem = observe(case)
+            if layout != 'C':
+                case['layout'] = layout
+            conf_student.LAYOUT[0] = layout
+            try:
+                obs, problem = observe(case)
+            finally:
+                conf_student.LAYOUT[0] = 'C'
             res['evals'] += 1
             if problem:
                 res['bad'].append((vkey('raises', case), problem, case))
